@@ -7,6 +7,7 @@ import Rpki.Proofs.IpDerCodec
 import Rpki.Proofs.ResTextLemmas
 import Rpki.Proofs.ResTextV6
 import Rpki.Proofs.ResTextSets
+import Rpki.Model.ProvMsg
 import Rpki.Proofs.ChainPrefix
 import Rpki.Proofs.ChainOps
 namespace Rpki.C03
@@ -218,6 +219,69 @@ example : ResText.parseV6 (ResText.fmtV6 (2 ^ 112 + 2 ^ 48 + 5)) = some (2 ^ 112
   ResText.parseV6_fmtV6 _ (by decide)
 example : ResText.V4Shaped (.pfx (10 * 2 ^ 120) 8) := by
   refine ⟨by decide, by decide, by decide, by decide⟩
+
+
+/-! ## resource-limit application (`RequestResourceLimit::apply_to`, modelled in `Model/ProvMsg.lean`,
+tied by the `limit` op) -/
+
+/-- one resource type: the result is the limit when it is given and lies inside the entitled set, the
+entitled set when no limit is given, and there is no result exactly when a given limit sticks out -/
+theorem limit_pick_spec (M : Nat) (want : Option (List Blk)) (have_ : List Blk)
+    (hw : ∀ w, want = some w → Canon M w) (hh : Canon M have_) :
+    (∀ r, ProvMsg.pick want have_ = some r ↔
+        (want = none ∧ r = have_) ∨ (∃ w, want = some w ∧ r = w ∧ ∀ x, mem w x → mem have_ x)) := by
+  intro r
+  cases want with
+  | none => simp [ProvMsg.pick, eq_comm]
+  | some w =>
+    have := isEncompassed_iff' M w have_ (hw w rfl) hh
+    by_cases h : isEncompassed w have_ = true
+    · simp only [ProvMsg.pick, h, if_true, Option.some.injEq, reduceCtorEq, false_and, false_or]
+      constructor
+      · intro e; exact ⟨w, rfl, e.symm, this.1 h⟩
+      · rintro ⟨w', e, rfl, _⟩; exact e
+    · simp only [ProvMsg.pick, h, reduceCtorEq, false_and, false_or, Option.some.injEq]
+      constructor
+      · intro e; simp at e
+      · rintro ⟨w', e, _, hsub⟩
+        subst e
+        exact absurd (this.2 hsub) h
+
+/-- **Applying a limit** gives a result exactly when every limited resource type lies inside the
+entitled set; the result is then the limit for the limited types and the entitled resources for the
+others — in particular never more than the entitled set. -/
+theorem limit_apply_spec (l : ProvMsg.Limit) (s : ProvMsg.ResSet)
+    (hla : ∀ w, l.asn = some w → Canon 4294967295 w) (hl4 : ∀ w, l.v4 = some w → Canon (2 ^ 128 - 1) w)
+    (hl6 : ∀ w, l.v6 = some w → Canon (2 ^ 128 - 1) w)
+    (ha : Canon 4294967295 s.asn) (h4 : Canon (2 ^ 128 - 1) s.v4) (h6 : Canon (2 ^ 128 - 1) s.v6) (r : ProvMsg.ResSet) :
+    ProvMsg.applyTo l s = some r ↔
+      ProvMsg.pick l.asn s.asn = some r.asn ∧ ProvMsg.pick l.v4 s.v4 = some r.v4 ∧ ProvMsg.pick l.v6 s.v6 = some r.v6 := by
+  unfold ProvMsg.applyTo
+  by_cases he : l.isEmpty = true
+  · have he' := he
+    simp only [ProvMsg.Limit.isEmpty, Bool.and_eq_true, Option.isNone_iff_eq_none] at he'
+    obtain ⟨⟨e1, e2⟩, e3⟩ := he'
+    simp only [he, if_true, e1, e2, e3, ProvMsg.pick, Option.some.injEq]
+    constructor
+    · intro e; subst e; exact ⟨rfl, rfl, rfl⟩
+    · rintro ⟨a, b, c⟩
+      cases r; cases s
+      simp only at a b c
+      subst a; subst b; subst c; rfl
+  · simp only [he, Bool.false_eq_true, if_false]
+    cases h1 : ProvMsg.pick l.asn s.asn with
+    | none => simp
+    | some a =>
+      cases h2 : ProvMsg.pick l.v4 s.v4 with
+      | none => simp
+      | some b =>
+        cases h3 : ProvMsg.pick l.v6 s.v6 with
+        | none => simp
+        | some c =>
+          simp only [Option.some.injEq]
+          constructor
+          · intro e; subst e; exact ⟨rfl, rfl, rfl⟩
+          · rintro ⟨rfl, rfl, rfl⟩; rfl
 
 
 /-! ## Non-vacuity -/
